@@ -10,7 +10,7 @@ ID = "C10"
 LEVEL = "proof"
 DESIGN_REF = "DESIGN.md §9 C10, §12.C10"
 COQ_TARGETS = ["Properties/C10", "Pins/C10", "Storage/RunValid", "Storage/RunBuild"]
-THEOREMS = [("PdfV.Properties.C10", n) for n in ["C10_offsets", "C10_xref_consistent", "C10_startxref", "C10_valid_struct", "C10_reload", "C10_build_state"]]
+THEOREMS = [("PdfV.Properties.C10", n) for n in ["C10_offsets", "C10_xref_consistent", "C10_startxref", "C10_valid_struct", "C10_reload", "C10_load", "C10_build_state"]]
 ANCHORS = ["file.rs", "xref.rs"]
 MODES = ["accepts", "build_bytes"]
 TRUSTED_BASE = ["coqc 8.16.1 kernel (vm_compute for examples and table lemmas)",
